@@ -102,6 +102,25 @@ def check_case(case):
                 return r
         if r.fails or not judged:
             continue
+        # for quantified effects, every declaration order of the problem's objects
+        if "forall" in case.get("tags", []):
+            from itertools import permutations
+            names = list(pg.objects)
+            perms = list(permutations(names))[1:]
+            if case.get("orders", 1) <= 1:  # quick: reversal and one rotation; thorough: all
+                perms = [tuple(reversed(names)), tuple(names[1:] + names[:1])]
+            for perm in perms:
+                for st, s_succ, p_succ in judged:
+                    lib_st, prob = pg.lib_state(st, order=perm)
+                    got = observe(guard(lambda: pg.op("a", args, prob).apply(lib_st)))
+                    r.count("transitions")
+                    r.count("object-orders")
+                    if judge(got, s_succ, p_succ, args, st, f"objects declared {perm}"):
+                        break
+                if r.fails:
+                    break
+            if r.fails:
+                continue
         # order pass: one parse per schedule, the states are built once per call and shared between schedules (apply
         # copies its input); a disagreement is confirmed in isolation (fresh objects, same schedule) before it counts,
         # so that an impure apply cannot leak into C03
